@@ -71,7 +71,26 @@ def handleNary (j : Json) (op : String) : Except String Verdict := do
     pure { agree := decide (m = rowsP) && maskOk, spec := naryOrSpecB (a :: rest) rowsP && maskOk,
            model := jList (m.map (fun r => jList [jInt r.1, Json.str (naryMask r.2), jList (r.2.map posJson)])),
            tags := tags ++ (if m.isEmpty then ["empty-result"] else ["nonempty-result"]) }
-  | "lf", a :: _ =>
+  | "lf", _ :: _ =>
+    if fStrD j "fmt0" "C" == "U" then
+      -- the leader's rank is declared uncompressed: it presents its whole active range [lo0, sh0), with its
+      -- stored payload (explicit defaults included) or a fresh default
+      let lo0 := (fNat j "lo0").toOption.getD 0
+      let sh0 := (fNat j "sh0").toOption.getD 0
+      let aU : Fib Int (Option Nat) := match ops with | o :: _ => presentRef "U" lo0 sh0 dflt d o | [] => []
+      let followersU := (ops.drop 1).map (rawRef d)
+      let rowsU ← impl.mapM (fun r => do
+        match (← asList r) with
+        | [c, pa, ps] => do pure ((← c.getInt?), (optPos (← pa.getInt?), (← asInts ps).map optPos))
+        | _ => throw "lf row")
+      let mU := leaderFollower aU followersU
+      let specU := aU.map (fun e => (e.1, (e.2, followersU.map (fun b => lookup b e.1))))
+      return { agree := decide (mU = rowsU), spec := decide (rowsU = specU),
+               model := jList (mU.map (fun r => jList [jInt r.1, posJson r.2.1, jList (r.2.2.map posJson)])),
+               tags := tags ++ ["leader-U"] }
+    match pres with
+    | [] => throw "lf without operands"
+    | a :: _ =>
     -- followers are searched by position in their raw stored elements
     let followers := (ops.drop 1).map (rawRef d)
     let rows ← impl.mapM (fun r => do
